@@ -166,7 +166,7 @@ func (e *Engine) Callees(fn *ssa.Function) []*ssa.Function {
 		for _, in := range b.Instrs {
 			switch x := in.(type) {
 			case ssa.CallInstruction:
-				add(x.Common().StaticCallee())
+				add(Devirt(x.Common()))
 				for _, a := range x.Common().Args {
 					if f, ok := a.(*ssa.Function); ok {
 						add(f)
